@@ -38,20 +38,25 @@ theorem turn_clock_mono (c : Consts) (env : Env) (hq : Quiet env) (D E : Nat) (h
       (sweep env (List.range (readClock env σ).mods.length) (readClock env σ) (readClock env σ).clock []).now
     dsimp only; omega
 
-/-- what the run-level induction knows about module `i` and the list of its starts since the clock was `L` -/
-structure RunInv (n i D E I L : Nat) (σ : PollState) (m : Mod) (starts : List Nat) : Prop where
+/-- the latest moment of the first start after the clock was `L`, for a module whose `last_main` was `lm` then:
+its due time (or `L`, if it was due already), the turn that may just have begun, and the way to module `i` -/
+def firstBound (n D E I L lm : Nat) : Nat := Nat.max (lm + I) L + (n - 1) * (D + E) + D + 2 * E
+
+/-- what the run-level induction knows about module `i` and the list of its starts since the clock was `L`
+(`lm`: its `last_main` at that moment) -/
+structure RunInv (n i D E I L lm : Nat) (σ : PollState) (m : Mod) (starts : List Nat) : Prop where
   gaps : GapsLe starts (gapBound n D E I)
   link : ∀ a, starts.getLast? = some a → m.lastStart = a ∧ ClockInv n i D E I σ m
   lo : ∀ t ∈ starts, L < t
-  head : ∀ a, starts.head? = some a → a ≤ L + E + i * (D + E)
-  fresh : starts = [] → σ.clock = L ∧ m.lastMain + m.interval < L
+  head : ∀ a, starts.head? = some a → a ≤ firstBound n D E I L lm
+  fresh : starts = [] → m.lastMain = lm ∧ σ.clock ≤ Nat.max (lm + I) L + restAfter n i D E
   clk : L ≤ σ.clock
 
-theorem run_full (c : Consts) (env : Env) (hq : Quiet env) (D E : Nat) (hb : Bounded env D E) (n i I L : Nat)
+theorem run_full (c : Consts) (env : Env) (hq : Quiet env) (D E : Nat) (hb : Bounded env D E) (n i I L lm : Nat)
     (hi : i < n) (k : Nat) : ∀ (σ : PollState) (m : Mod) (evs : List Event), GapInv n i D E I σ m →
-    RunInv n i D E I L σ m (startsOf evs i) →
+    RunInv n i D E I L lm σ m (startsOf evs i) →
     ∃ m', GapInv n i D E I (run c env k σ evs).σ m' ∧
-      RunInv n i D E I L (run c env k σ evs).σ m' (startsOf (run c env k σ evs).evs i) := by
+      RunInv n i D E I L lm (run c env k σ evs).σ m' (startsOf (run c env k σ evs).evs i) := by
   induction k with
   | zero => intro σ m evs hinv hr; exact ⟨m, hinv, hr⟩
   | succ k ih =>
@@ -80,9 +85,13 @@ theorem run_full (c : Consts) (env : Env) (hq : Quiet env) (D E : Nat) (hb : Bou
         rw [hls]
         omega
       · intro he
-        -- nothing polled yet although the module was due when the loop began: impossible
+        -- nothing polled yet: the turn ended no later than `restAfter` after the module's due time
         obtain ⟨h1, h2⟩ := hr.fresh he
-        have := (hcl hinv.en).2
+        have := (hcl hinv.en).1
+        have h4 := hinv.iv
+        have hmx : lm + I ≤ Nat.max (lm + I) L := Nat.le_max_left _ _
+        refine ⟨by rw [hlm]; exact h1, ?_⟩
+        rw [h1, h4] at this
         omega
     · -- `doPoll i` at time `t`
       have hinv' : GapInv n i D E I (turn c env σ).σ m' :=
@@ -116,7 +125,11 @@ theorem run_full (c : Consts) (env : Env) (hq : Quiet env) (D E : Nat) (hb : Bou
           rw [hs] at ha
           simp only [List.nil_append, List.head?_cons, Option.some.injEq] at ha
           subst ha
-          have := (hr.fresh hs).1
+          have := (hr.fresh hs).2
+          unfold restAfter at this
+          unfold firstBound
+          have h5 : i * (D + E) + (n - 1 - i) * (D + E) = (n - 1) * (D + E) := by
+            rw [← Nat.add_mul]; congr 1; omega
           omega
         | cons x xs =>
           rw [hs] at ha
@@ -125,5 +138,50 @@ theorem run_full (c : Consts) (env : Env) (hq : Quiet env) (D E : Nat) (hb : Bou
           exact hr.head x (by rw [hs]; rfl)
       · intro he
         simp at he
+
+/-- whatever another thread does to the poll bookkeeping, a module keeps its `PollInfo` and `last_main` stays at or
+before the latest start (it is only ever reset to 0) -/
+theorem applyExtMods_keeps (e : Ext) (mods : List Mod) (i : Nat) (m : Mod) (hm : mods[i]? = some m) :
+    ∃ m', (applyExtMods mods e)[i]? = some m' ∧ m'.enabled = m.enabled ∧
+      (m.lastMain ≤ m.lastStart → m'.lastMain ≤ m'.lastStart) := by
+  cases e with
+  | updateInterval j v =>
+    by_cases hj : j = i
+    · subst hj
+      refine ⟨extUpdateInterval v m, by simp [applyExtMods, updAt_getElem?, hm], ?_, ?_⟩
+      · unfold extUpdateInterval; split <;> rfl
+      · unfold extUpdateInterval; split <;> exact id
+    · exact ⟨m, by simp [applyExtMods, updAt_getElem?, hm, Ne.symm hj], rfl, id⟩
+  | setFastPoll j flag v =>
+    by_cases hj : j = i
+    · subst hj
+      exact ⟨extSetFastPoll flag v m, by simp [applyExtMods, updAt_getElem?, hm], rfl, id⟩
+    · exact ⟨m, by simp [applyExtMods, updAt_getElem?, hm, Ne.symm hj], rfl, id⟩
+  | trigger j imm =>
+    by_cases hj : j = i
+    · subst hj
+      refine ⟨extTrigger imm m, by simp [applyExtMods, updAt_getElem?, hm], ?_, ?_⟩
+      · unfold extTrigger; split <;> rfl
+      · unfold extTrigger; split
+        · intro _; exact Nat.zero_le _
+        · exact id
+    · exact ⟨m, by simp [applyExtMods, updAt_getElem?, hm, Ne.symm hj], rfl, id⟩
+  | triggerAll =>
+    refine ⟨extTriggerAll m, by simp [applyExtMods, hm], ?_, ?_⟩
+    · unfold extTriggerAll; split <;> rfl
+    · unfold extTriggerAll; split
+      · intro _; exact Nat.zero_le _
+      · exact id
+
+theorem applyExts_keeps (es : List Ext) : ∀ (σ : PollState) (i : Nat) (m : Mod), σ.mods[i]? = some m →
+    ∃ m', (applyExts es σ).mods[i]? = some m' ∧ m'.enabled = m.enabled ∧
+      (m.lastMain ≤ m.lastStart → m'.lastMain ≤ m'.lastStart) := by
+  induction es with
+  | nil => intro σ i m hm; exact ⟨m, hm, rfl, id⟩
+  | cons e es ih =>
+    intro σ i m hm
+    obtain ⟨m1, h1, e1, l1⟩ := applyExtMods_keeps e σ.mods i m hm
+    obtain ⟨m', h', e', l'⟩ := ih (applyExt σ e) i m1 h1
+    exact ⟨m', h', by rw [e', e1], fun h => l' (l1 h)⟩
 
 end Frappy.Poller
